@@ -6,7 +6,7 @@ BASE_DECL = 'int g; bool b; clock x, y; chan c, d[2]; int a[3]; typedef int[0,3]
 PARTS = {1: 'decl', 2: 'decl', 3: 'system', 4: 'system', 5: 'params', 6: 'expr', 7: 'expr', 8: 'select', 9: 'expr', 10: 'expr', 11: 'expr', 12: 'expr', 13: 'expr', 14: 'query', 15: 'xta', 16: 'expr',
          17: 'expr', 18: 'expr', 19: 'expr', 20: 'expr'}
 SEEDS = dict(decl=crashgen.DECL, expr=crashgen.EXPR, system=crashgen.SYSTEM, params=crashgen.PARAMS, select=crashgen.SELECT, query=crashgen.QUERY, xta=crashgen.XTA)
-TLINE = re.compile(r'^T (\w+) (\d+) (\d+) (\d+)((?: a\d+=-?\d+)*) \| (\d+) (\d+) (\d+) (\d)$')
+TLINE = re.compile(r'^T (\w+) (\d+) (\d+) (\d+) (\d) (\d)((?: a\d+=-?\d+)*) \| (\d+) (\d+) (\d+) (\d) (\d) (\d)$')
 
 
 def effect_of(name, argvals):
@@ -46,10 +46,10 @@ def validate_trace(lines, viol, seen):
             continue
         n += 1
         name = m.group(1)
-        before = (int(m.group(2)), int(m.group(3)), int(m.group(4)))
-        after = (int(m.group(6)), int(m.group(7)), int(m.group(8)))
-        exc = m.group(9) == '1'
-        argv = {int(k): int(v) for k, v in re.findall(r'a(\d+)=(-?\d+)', m.group(5))}
+        before = tuple(int(m.group(k)) for k in (2, 3, 4, 5, 6))
+        after = tuple(int(m.group(k)) for k in (8, 9, 10, 11, 12))
+        exc = m.group(13) == '1'
+        argv = {int(k): int(v) for k, v in re.findall(r'a(\d+)=(-?\d+)', m.group(7))}
         eff = effect_of(name, argv)
         seen[name] += 1
         if eff is None:
@@ -59,6 +59,8 @@ def validate_trace(lines, viol, seen):
             net = after[k] - before[k]
             if before[k] < need:
                 viol.append(dict(callback=name, stack=s, problem='ran with %d entries, the table says it reads %d' % (before[k], need), line=l))
+            if s in gen_lr.FLAG_STACKS:
+                continue            # a pointer is a flag, not a counter (a stale function pointer is overwritten by the next decl_func_begin): only the need side is compared
             if net < lo:
                 viol.append(dict(callback=name, stack=s, problem='height changed by %d, below the table\'s lower bound %d%s' % (net, lo, ' (threw)' if exc else ''), line=l))
             if net > hi and not exc:
